@@ -170,6 +170,9 @@ def h_dm1_overlap(ex, n=3, cycle='3/50', cycles=5):
     tx.start_send(supply, cycletime=cyc)
     w.run(until=w.now + cyc * cycles + Fraction(1, 2))
     ex.claim('dm1.overlap.something_received', len(got) >= 1, {'received': len(got), 'supplied': len(snaps)})
+    # a cycle that finds the previous transfer still running may be skipped, but the cyclic sender keeps running
+    ex.claim('dm1.overlap.sender_keeps_cycling', len(snaps) >= cycles, {'supplied': len(snaps), 'cycles': cycles})
+    ex.claim('dm1.overlap.later_cycles_received', len(got) >= 2, {'received': len(got)})
     for g in got:
         ok = len(g) == n
         ex.claim('dm1.overlap.dtc_count', ok, {'got': len(g)})
